@@ -4,7 +4,7 @@ from __future__ import annotations
 
 import itertools
 
-from props.ctxlib import Realm, cdef, fdef
+from props.ctxlib import Realm, alt, cdef, cfield, fdef
 
 XS = "{http://www.w3.org/2001/XMLSchema}"
 
@@ -61,7 +61,19 @@ U_WRAP = [
     cdef("C", fields=[fdef("Items"), fdef("z", wrapper="")]),
 ]
 
-HAND = {"witness": U_WITNESS, "xsi": U_XSI, "bad": U_BAD, "inherit": U_INHERIT, "wrap": U_WRAP}
+# U_CHOICE: compound (type=Elements) fields of the same name in different models, holding
+# the same member classes under different element names; a subclass member (derived
+# choice), a value no choice accepts, a field after the compound (index shift)
+U_CHOICE = [
+    cdef("Address", fields=[fdef("city")]),
+    cdef("Person", fields=[fdef("name")]),
+    cdef("Order", mname="order", fields=[cfield("choice", [alt(0, "billTo"), alt(1, "buyer")])]),
+    cdef("Shipment", mname="shipment", fields=[cfield("choice", [alt(0, "shipTo"), alt(1, "carrier")])]),
+    cdef("Home", base=0, fields=[fdef("door")]),
+    cdef("Other", ns="urn:o", fields=[cfield("choice", [alt(1, "who", ns="urn:w"), alt(4)]), fdef("after")]),
+]
+
+HAND = {"witness": U_WITNESS, "xsi": U_XSI, "bad": U_BAD, "inherit": U_INHERIT, "wrap": U_WRAP, "choice": U_CHOICE}
 
 W = lambda loaded, mods=0: {"loaded": loaded, "mods": mods}  # noqa: E731
 
@@ -104,6 +116,14 @@ DOC_HOLDER = [["enter", 0, 3], ["enter", 0, 2], ["leaf", 0], ["leaf", 2], ["leaf
 # B(item, y, c=A(item)) over U_WRAP
 DOC_WRAP = [["enter", 0, 1], ["leaf", 0], ["leaf", 1], ["enter", 2, 0], ["leaf", 0], ["leave"], ["leave"]]
 
+def doc_choice(root, *values):
+    """root(choice=[values...]) over U_CHOICE; a value is a class id (its first field gets a leaf)"""
+    toks = [["enter", 0, root]]
+    for c in values:
+        toks += [["enter", 0, c], ["leaf", 0], ["leave"]]
+    return toks + [["leave"]]
+
+
 RESET = {"k": "reset"}
 BXC = {"k": "build_xsi_cache"}
 
@@ -124,6 +144,10 @@ POOLS = {
     "inherit": [
         op_build(2), op_build(2, "urn:p"), op_build(3), op_build(0, "urn:h"), op_build(0, "urn:f"),
         op_fetch(0, "urn:q", "Leaf"), op_fields(["r", "m"]), op_ser(DOC_HOLDER), op_q("find_type", "{urn:mod}NoneNs"),
+    ],
+    "choice": [
+        op_ser(doc_choice(2, 0, 1)), op_ser(doc_choice(3, 0, 1)), op_ser(doc_choice(2, 4)), op_ser(doc_choice(3, 1, 4)),
+        op_ser(doc_choice(5, 0)), op_ser(doc_choice(5, 1, 4)), op_build(5, "urn:p"), op_fields(["choice"]),
     ],
     "wrap": [
         op_fields(["Items"]), op_fields(["Items", "y"]), op_fields(["item"]), op_lnm(["Items", "Cs"], 1), op_lnm([""], 2),
@@ -147,6 +171,8 @@ FNAMES = ["x", "y", "z", "c", "v", "t"]
 FNS = [None, None, None, "", "urn:a", "urn:f", "##any", "##other", "##local", "##targetNamespace",
        "##any ##local", "  urn:a\t ", "##local urn:a", "##targetNamespace ##local"]
 PNS = [None, None, "", "urn:a", "urn:b", "urn:p"]
+CNAMES = ["choice", "choice", "items"]
+ANAMES = [None, "a", "b", "shipTo", "billTo", "x"]
 WRAPPERS = [None, None, None, None, None, "w", "", "x", "Items"]
 
 
@@ -186,6 +212,15 @@ def rand_universe(rng, n=None, declared=False, clean=False):
                 elif not text:
                     text = True
                     fields.append(fdef(name, "text"))
+            # a compound field; its name comes from a tiny pool so that different models share it
+            models = [j for j in range(i) if U[j]["model"] and not chain_bad(U, j)]
+            cname = rng.choice(CNAMES)
+            if models and cname not in used and rng.random() < 0.3:
+                used.add(cname)
+                members = rng.sample(models, min(len(models), rng.choice([1, 2, 2, 3])))
+                if not clean and rng.random() < 0.08:
+                    members.append(members[0])  # "Compound field contains ambiguous types"
+                fields.append(cfield(cname, [alt(m, rng.choice(ANAMES), rng.choice([None, None, "urn:a", ""])) for m in members]))
         U.append(cdef(
             rng.choice(NAMES), base=base, model=model, pkg=clean or rng.random() > 0.1,
             ns=rng.choice(NS_CLASS[3:] if declared else NS_CLASS),
@@ -288,10 +323,21 @@ def all_fields(universe, c):
     return out
 
 
+def class_bad(d):
+    """unsupported typing, or a compound field with the same type in two choices"""
+    if d["bad"]:
+        return True
+    for f in d["fields"]:
+        seen = [a["cls"] for a in f.get("alts", ())]
+        if len(seen) != len(set(seen)):
+            return True
+    return False
+
+
 def chain_bad(universe, c):
     k = c
     while k is not None:
-        if universe[k]["bad"]:
+        if class_bad(universe[k]):
             return True
         k = universe[k]["base"]
     return False
@@ -303,9 +349,20 @@ def rand_tree(rng, universe, c, loaded=None, depth=3, field=0):
     toks = [["enter", field, c]]
     if not chain_bad(universe, c):
         for i, f in enumerate(all_fields(universe, c)):
-            if f["cls"] is not None:
+            if f["kind"] == "elements":
+                if depth > 0:
+                    members = [a["cls"] for a in f["alts"]]
+                    pool = members + [j for j in range(loaded) if universe[j]["model"] and not chain_bad(universe, j)
+                                      and (universe[j]["base"] in members or rng.random() < 0.15)]
+                    for _ in range(rng.choice([0, 1, 1, 2, 3])):
+                        toks.extend(rand_tree(rng, universe, rng.choice(pool), loaded, depth - 1, i))
+            elif f["cls"] is not None:
                 if depth > 0 and f["cls"] < loaded and rng.random() < 0.7:
-                    toks.extend(rand_tree(rng, universe, f["cls"], loaded, depth - 1, i))
+                    # the declared class or, sometimes, a subclass of it (written with an xsi:type)
+                    subs = [j for j in range(loaded) if universe[j]["base"] == f["cls"] and universe[j]["model"]
+                            and not chain_bad(universe, j)]
+                    c2 = rng.choice(subs) if subs and rng.random() < 0.3 else f["cls"]
+                    toks.extend(rand_tree(rng, universe, c2, loaded, depth - 1, i))
             elif rng.random() < 0.7:
                 toks.append(["leaf", i])
     toks.append(["leave"])
@@ -346,6 +403,9 @@ def rand_docs(rng, universe):
             toks = rand_tree(rng, universe, c)
             ops.append({"k": "xml_render", "toks": toks})
             ops.append({"k": "json_render", "toks": toks})
+            # the other serializer kinds, each through its one shared instance
+            for kind in rng.sample(["xml_render_native", "xml_render_lxml", "tree_render", "dict_encode", "pycode_render"], 2):
+                ops.append({"k": kind, "toks": toks})
             try:
                 xml = XmlSerializer(context=realm.context()).render(realm.obj(toks))
                 js = JsonSerializer(context=realm.context()).render(realm.obj(toks))
@@ -366,6 +426,7 @@ def rand_docs(rng, universe):
                     ops.append({"k": "json_parse", "doc": injj, "c": c, "cfg": {"fail_on_unknown_properties": strict}})
             ops.append({"k": "json_parse", "doc": js, "c": c})
             ops.append({"k": "json_parse_any", "doc": js, "c": None})
+            ops.append({"k": "dict_decode", "doc": js, "c": c})
         if ops:
             ops.append({"k": "xml_parse", "doc": "<nope", "c": roots[0]})
             ops.append({"k": "xml_parse", "doc": "<unknown-root/>", "c": None})
